@@ -65,7 +65,7 @@ def crop_event(c, lazy=False):
     return ev
 
 
-def block_event(n, shifted, radius_q, margin, lazy=False, has_cutoff=False, cutoff_q=(9, 4)):
+def block_event(n, shifted, radius_q, margin, lazy=False, has_cutoff=False, cutoff_q=(9, 4), reuse=False):
     """radius_q: [num, den] in pixel units or None (radius left to the metadata); margin: "true" / "false" / "default";
     has_cutoff: the metadata records a semiangle cutoff (cutoff_q pixels).  The effective radius is computed by Pattern.tla."""
     import abtem
@@ -73,7 +73,7 @@ def block_event(n, shifted, radius_q, margin, lazy=False, has_cutoff=False, cuto
     margin = {True: "true", False: "false"}.get(margin, margin)
     ev = {"k": "block", "n": [nx, ny], "shifted": shifted, "margin": margin, "lazy": lazy, "raised": False,
           "radius_given": list(radius_q) if radius_q is not None else [], "has_cutoff": bool(has_cutoff), "cutoff": list(cutoff_q),
-          "zeroed": [], "others_unchanged": True}
+          "zeroed": [], "others_unchanged": True, "reuse": bool(reuse)}
     try:
         from abtem.core.energy import energy2wavelength
         lam = energy2wavelength(ENERGY)
@@ -93,6 +93,13 @@ def block_event(n, shifted, radius_q, margin, lazy=False, has_cutoff=False, cuto
             kw["radius"] = radius_q[0] / radius_q[1] * DELTA
         if margin != "default":
             kw["margin"] = margin == "true"
+        if reuse:
+            # the same pattern object was masked before with wider limits (results discarded): what this call blocks is unaffected
+            first = dp.block_direct(radius=min(nx, ny) * 0.45 * DELTA)
+            second = dp.bandlimit(0.0, min(nx, ny) * 0.3 * DELTA) if hasattr(dp, "bandlimit") else None
+            for o in (first, second):
+                if lazy and o is not None:
+                    o.compute()
         out = dp.block_direct(**kw)
         if lazy:
             out = out.compute()
